@@ -107,7 +107,7 @@ PROPS.update({
         assumptions=[S_REAL, "selection is evaluated through the exported pure functions on the persisted task records; the universe is {default, dbx, other} x {c1, c2, c3, zz}", "bookkeeping equality is judged as sets per downstream (names, exclusions, user-role owner) against what the persisted tasks imply"],
     ),
     "C11": dict(
-        rig="S", variants=["etcd", "mysql"], runs=dict(quick=1500, thorough=50000),
+        rig="S", residual_nondeterminism=True, variants=["etcd", "mysql"], runs=dict(quick=1500, thorough=50000),
         nontrivial_probes=["quiescent_check", "reload_checked"],
         must_hit=["quiescent_check", "reload_checked", "rejected_request"],
         rule="Same operator sequences as C10; after every answered request, at the next quiescent point, the state shown by get, the persisted record, the in-memory table and the per-state gauges are compared for every task known to any of them; per-target reference counts and stop functions against the running tasks; registered streams against running tasks; the store is searched for leftovers of deleted tasks; after a restart every persisted task must be in memory and Running or Paused per its auto-start flag.",
@@ -128,14 +128,14 @@ PROPS.update({
         assumptions=[S_REAL, "Kafka downstream (SASL secrets) is not simulated: librdkafka's poller thread keeps a bubble from going idle", "only what the service writes through its zap logger to stdout is seen"],
     ),
     "C05": dict(
-        rig="S", variants=["etcd", "mysql"], runs=dict(quick=1200, thorough=40000),
+        rig="S", residual_nondeterminism=True, variants=["etcd", "mysql"], runs=dict(quick=1200, thorough=40000),
         nontrivial_probes=["checkpoint_checked", "liveness_checked", "reg_resume"],
         must_hit=["checkpoint_checked", "liveness_checked", "reg_resume", "restart"],
         rule="Source histories of 4-16 rounds (inserts/deletes on 1-3 collections x 1-2 shards, collection created / dropped mid-run, op messages, ticks) published one event per scheduler action while 1-2 tasks replicate to 1-2 downstreams; downstream write rejections, store errors (before/after apply) and DDL rejections at any parked call; pause/resume; 0-2 crashes with restart from the persisted world. After every store change each persisted checkpoint is compared with the downstream's acknowledgement log; every stream registration is compared with what it skips; at the end (fault-free drain) every message of a running task's streams must have been acknowledged.",
         assumptions=[S_REAL, "the replication domain of a stream starts at its first registration without a position (latest) or at the start position it was first given"],
     ),
     "C06": dict(
-        rig="S", variants=["etcd", "mysql"], runs=dict(quick=1200, thorough=40000), panic_is_violation=True,
+        rig="S", residual_nondeterminism=True, variants=["etcd", "mysql"], runs=dict(quick=1200, thorough=40000), panic_is_violation=True,
         nontrivial_probes=["task_paused_by_failure", "liveness_checked"],
         must_hit=["task_paused_by_failure", "liveness_checked"],
         rule="Same scenarios as C05 without crashes; the first-acknowledgement order per stream must be gap-free, a Paused task must show a reason, tasks end Paused only if a failure was injected, the four state views agree at the end, and the process must survive.",
